@@ -4,7 +4,8 @@ domain : declaration sets of 1-12 array-map variables (single formats, x,
          multi-element formats like 3H / 4B / 2I / 16I) spread over a base
          class, a derived class (which may override a name) and 0-3
          subprogram instances of 1-2 classes; plain and per-CPU maps; values
-         from the boundary pool.
+         from the boundary pool; optionally a second, bigger program object
+         of the same class is created before the values are exchanged.
 checked: byte ranges pairwise disjoint and inside the map; Python -> program
          (Python writes, the program copies to an output variable, for
          multi-element variables element k through get_address) and program ->
@@ -105,7 +106,7 @@ def case_strategy(draw):
                        "k": draw(st.integers(0, 63))})
     return {"percpu": percpu, "base": base, "derived": derived,
             "override": override, "subclasses": subclasses, "subs": subs,
-            "values": values}
+            "values": values, "sibling": draw(st.booleans())}
 
 
 def strategy(tier):
@@ -211,6 +212,19 @@ def run_case(case):
             subobjs = [subcls[ci]() for ci in case["subs"]]
             e = cls(subprograms=subobjs) if subobjs else cls()
             loaded = dsl.Loaded(e)
+            if case.get("sibling") and subcls and loaded.status == "ok":
+                # a second, bigger program object of the same class is
+                # created afterwards (one more subprogram instance); the
+                # first one must not be affected.  (Only "bigger": were the
+                # first one's reads sized by the second, a bigger buffer is
+                # harmless for the real kernel.)
+                msize_own = the_map.size
+                sib = cls(subprograms=[subcls[ci]() for ci in case["subs"]]
+                          + [sc() for sc in subcls])
+                dsl.Loaded(sib)
+                classes.append("sibling-object")
+            else:
+                msize_own = None
         except AssembleError:
             return dict(ok=True, nontrivial=False,
                         classes=classes + ["rejected:AssembleError"])
@@ -232,7 +246,7 @@ def run_case(case):
             return dict(ok=True, nontrivial=False,
                         classes=classes + ["verifier-rejected"])
         # ---- layout
-        msize = the_map.size
+        msize = msize_own or the_map.size
         ranges = []
         for owner, name, f in inst:
             o = obj(e, owner)
